@@ -7,9 +7,9 @@
    continue after a crashed call are included), for either version [blk] of DataLinkConnection.enqueue
    (c_enq_blocks: before / after fixes/c07-7; the harness tells the model which one the source is).  Abstract table: [bound_set c a] (sockets bound at a),
    [name_addr c n] (address a service name is bound to). *)
-From Coq Require Import ZArith List Bool.
+From Coq Require Import ZArith List Bool Permutation.
 From NV Require Import Base.Result Base.Bytes Base.PyPrims Model.Addr Proofs.Addr Proofs.AddrInv Proofs.AddrStep
-  Proofs.AddrThm Proofs.AddrMain Gen.AddrK Bridge.Addr.
+  Proofs.AddrThm Proofs.AddrMain Proofs.AddrDgram Gen.AddrK Bridge.Addr.
 Import ListNotations.
 Open Scope Z_scope.
 
@@ -126,31 +126,72 @@ Theorem C17_connect_by_name : forall blk ops sd ssap n c' r, dispatch (reach blk
 Proof. exact connect_by_name_all. Qed.
 Print Assumptions C17_connect_by_name.
 
-(* --- datagram_exact: a dispatched UI PDU is appended unchanged to the receive queue of one socket bound at its
-       DSAP whose peer filter admits the source, or to none (AddrMain.datagram_outcome); sendto queues exactly
-       (dest, own address, message) at the tail; collect takes the head of a queue of a socket bound at that SAP;
-       the peer dispatches exactly the collected PDU; recvfrom returns the head.
-       In every reachable state a datagram waiting in a receive queue is addressed to that socket's address and a
-       datagram waiting in a send queue carries that socket's address as source (C17_datagram_queues).
-       PARTIAL: the end-to-end order statement is given as these queue-discipline steps (append at the tail
-       unchanged, take from the head unchanged, same PDU across the link), not as one theorem over traces. --- *)
+(* --- datagram_exact.
+   End to end (C17_datagram_exact_guarded, Proofs/AddrDgram.v): sender = datagram socket i of controller X, receiver =
+   datagram socket r of the peer controller.  Ghost history computed along the history by AddrDgram.gupd:
+     g_sent  PUI a s msg for every sendto(msg, a) accepted on i;   g_rcvd  PUI a s data for every (data, s) that
+     recvfrom on r returned;   g_drop  datagrams discarded by exactly these rules: (1) close() of i discards what is
+     still in its send queue, (2) close() of r discards what is still in its receive queue, (3) a datagram from s for a
+     that is transferred and does not enter the receive queue of r is discarded.  When a transferred datagram enters
+     the queue is C17_datagram_arrival_rule: it is appended, unchanged, iff a socket is bound at its DSAP whose peer
+     filter admits the source, the payload is not longer than the link MIU and the queue holds fewer than SO_RCVBUF
+     entries; the NEWLY ARRIVING datagram is the one that is dropped on overflow, the queue is left as it is.
+   Guard AddrDgram.compat, required of the state at the END of the history (it then held all along, because sockets keep
+   type and address): i and r are datagram sockets, unbound or bound at s resp. a; NO OTHER socket of X is bound at s
+   and no other socket of the peer at a (the two addresses are not re-used by other sockets); controller X has NO RAW
+   ACCESS POINT socket (a raw access point can put UI PDUs with any source address on the link).
+   The statement without the address re-use guard (per address instead of per socket) is not proved.
+   Conclusion: g_rcvd ++ (datagrams from s waiting in r's receive queue) ++ (datagrams for a waiting in i's send queue)
+   is an order-preserving sub-list of g_sent, and g_sent is a permutation of that list plus g_drop: what recvfrom
+   returned is, in order, what sendto accepted minus what is still queued and minus what rules 1-3 discarded; nothing
+   else is lost, duplicated, altered or delivered elsewhere.
+   Per step: a dispatched UI PDU is appended unchanged to the receive queue of one socket bound at its DSAP, or to none;
+   sendto queues exactly (dest, own address, message) at the tail; collect takes the head of a queue of a socket bound at
+   that SAP; the peer dispatches exactly the collected PDU; recvfrom returns the head.  In every reachable state a
+   datagram waiting in a receive queue is addressed to that socket's address and one waiting in a send queue carries
+   that socket's address as source (C17_datagram_queues). --- *)
+Theorem C17_datagram_exact_guarded : forall X i r s a blk ops,
+  compat X i r s a (exec blk ops) ->
+  let g := snd (grun X i r s a blk ops) in
+  let st := exec blk ops in
+  let kept := g_rcvd g ++ inq X r s st ++ outq X i a st in
+  sub kept (g_sent g) /\ Permutation (g_sent g) (kept ++ g_drop g).
+Proof. exact datagram_end_to_end. Qed.
+Print Assumptions C17_datagram_exact_guarded.
+Theorem C17_datagram_received_in_order : forall X i r s a blk ops,
+  compat X i r s a (exec blk ops) -> sub (g_rcvd (snd (grun X i r s a blk ops))) (g_sent (snd (grun X i r s a blk ops))).
+Proof. exact datagram_received_in_order. Qed.
+Print Assumptions C17_datagram_received_in_order.
+Theorem C17_datagram_all_received : forall X i r s a blk ops,
+  compat X i r s a (exec blk ops) ->
+  let g := snd (grun X i r s a blk ops) in
+  g_drop g = [] -> inq X r s (exec blk ops) = [] -> outq X i a (exec blk ops) = [] -> g_rcvd g = g_sent g.
+Proof. exact datagram_all_received. Qed.
+Print Assumptions C17_datagram_all_received.
+(* without raw access points a UI PDU leaves a controller only from the send queue of the datagram socket bound at its source *)
+Theorem C17_ui_origin : forall c a' miu d ss data c', wf c -> (forall j sj, get_sock c j = Some sj -> s_type sj <> TRaw) ->
+  collect1 c a' miu = Some (PUI d ss data, c') ->
+  exists k sk rest, get_sock c k = Some sk /\ s_type sk = TLdl /\ s_addr sk = Some ss /\
+                    s_sendq sk = PUI d ss data :: rest /\ get_sock c' k = Some (set_sendq sk rest).
+Proof. exact collect_ui_origin. Qed.
+Print Assumptions C17_ui_origin.
 Theorem C17_datagram_queues : forall blk ops sd i s p, get_sock (reach blk ops sd) i = Some s -> s_type s = TLdl ->
   (In p (s_recvq s) -> exists d sa data, p = PUI d sa data /\ s_addr s = Some d) /\
   (In p (s_sendq s) -> exists d data a, p = PUI d a data /\ s_addr s = Some a).
 Proof. exact datagram_queues_all. Qed.
 Print Assumptions C17_datagram_queues.
-Theorem C17_datagram_dispatch_partial : forall blk ops sd d sa data c' r, dispatch (reach blk ops sd) (PUI d sa data) = (c', r) ->
+Theorem C17_datagram_arrival_rule : forall blk ops sd d sa data c' r, dispatch (reach blk ops sd) (PUI d sa data) = (c', r) ->
   datagram_outcome (reach blk ops sd) d sa data c' r.
 Proof. exact datagram_dispatch_all. Qed.
-Print Assumptions C17_datagram_dispatch_partial.
-Theorem C17_datagram_sendto_partial : forall blk ops sd i s msg d c', get_sock (reach blk ops sd) i = Some s -> s_type s = TLdl ->
+Print Assumptions C17_datagram_arrival_rule.
+Theorem C17_datagram_sendto : forall blk ops sd i s msg d c', get_sock (reach blk ops sd) i = Some s -> s_type s = TLdl ->
   do_sendto (reach blk ops sd) i msg d = (c', Ok (OBool true)) ->
   exists s' a, get_sock c' i = Some s' /\ s_addr s' = Some a /\ (s_addr s = None \/ s_addr s = Some a) /\
                s_sendq s' = s_sendq s ++ [PUI d a msg] /\ s_recvq s' = s_recvq s /\
                (s_peer s = None \/ s_peer s = Some 0 \/ s_peer s = Some d) /\ len msg <= link_miu.
 Proof. exact datagram_sendto_all. Qed.
-Print Assumptions C17_datagram_sendto_partial.
-Theorem C17_collect_head_partial : forall blk ops sd a miu p c', collect1 (reach blk ops sd) a miu = Some (p, c') ->
+Print Assumptions C17_datagram_sendto.
+Theorem C17_collect_head : forall blk ops sd a miu p c', collect1 (reach blk ops sd) a miu = Some (p, c') ->
   (exists i s s', In i (bound_set (reach blk ops sd) a) /\ get_sock (reach blk ops sd) i = Some s /\ s_addr s = Some a /\
                   get_sock c' i = Some s' /\
                   (exists rest, s_sendq s = p :: rest /\ (s_sendq s' = rest \/ s_sendq s' = [])) /\
@@ -158,17 +199,17 @@ Theorem C17_collect_head_partial : forall blk ops sd a miu p c', collect1 (reach
   (exists l sl, sap_get (reach blk ops sd) a = Sap l (p :: sl) /\ sap_get c' a = Sap l sl /\ c_socks c' = c_socks (reach blk ops sd)) \/
   (a = 1 /\ c_socks c' = c_socks (reach blk ops sd)).
 Proof. exact collect_head_all. Qed.
-Print Assumptions C17_collect_head_partial.
-Theorem C17_link_same_pdu_partial : forall st from a miu st' p evs, step st (XXfer from a miu) = (st', Ok (OXfer (Some p) evs)) ->
+Print Assumptions C17_collect_head.
+Theorem C17_link_same_pdu : forall st from a miu st' p evs, step st (XXfer from a miu) = (st', Ok (OXfer (Some p) evs)) ->
   exists c1, collect1 (get_side st from) a miu = Some (p, c1) /\
              dispatch (get_side (set_side st from c1) (other from)) p = (get_side st' (other from), Ok evs).
 Proof. exact xfer_same_pdu. Qed.
-Print Assumptions C17_link_same_pdu_partial.
-Theorem C17_datagram_recvfrom_partial : forall c i s c' data ssap, get_sock c i = Some s -> s_type s = TLdl ->
+Print Assumptions C17_link_same_pdu.
+Theorem C17_datagram_recvfrom : forall c i s c' data ssap, get_sock c i = Some s -> s_type s = TLdl ->
   do_recvfrom c i = (c', Ok (ODgram data ssap)) ->
   exists d q, s_recvq s = PUI d ssap data :: q /\ get_sock c' i = Some (set_recvq s q).
 Proof. exact datagram_recvfrom. Qed.
-Print Assumptions C17_datagram_recvfrom_partial.
+Print Assumptions C17_datagram_recvfrom.
 
 (* --- tie: the allocation logic regenerated from src/nfc/llcp/llc.py on this run (Gen/AddrK.v, functions of the
        occupancy list occ = [x is None for x in self.sap]) is what the model computes.  Every reachable controller has
@@ -288,6 +329,27 @@ Theorem C17_bridge_socket_others : forall c i b n k,
   gen_c17_Socket_resolve (fun n => do_resolve c n k) n = do_resolve c n k.
 Proof. exact bridge_socket_others. Qed.
 Print Assumptions C17_bridge_socket_others.
+
+(* non-vacuity of the end-to-end theorem: sender B1 (bound at 33), receiver A0 (bound at 40, SO_RCVBUF 1): three datagrams
+   are accepted, the second arrives while the first is still queued and is dropped (rule 3), the third stays in the send
+   queue; the guard holds for this history *)
+Definition dg_demo : list op :=
+  [XLoc SA (LSocket TLdl); XLoc SA (LBind 0 (BAddr 40)); XLoc SB (LSocket TDlc); XLoc SB (LSocket TLdl);
+   XLoc SB (LSendto 1 [1] 40); XLoc SB (LSendto 1 [2] 40); XLoc SB (LSendto 1 [3] 40);
+   XXfer SB 32 248; XXfer SB 32 248; XLoc SA (LRecvfrom 0)].
+Example C17_datagram_exact_nonvacuous :
+  snd (grun SB 1 0 32 40 true dg_demo) = mkG [PUI 40 32 [1]; PUI 40 32 [2]; PUI 40 32 [3]] [PUI 40 32 [1]] [PUI 40 32 [2]] /\
+  inq SB 0 32 (exec true dg_demo) = [] /\ outq SB 1 40 (exec true dg_demo) = [PUI 40 32 [3]] /\
+  compat SB 1 0 32 40 (exec true dg_demo).
+Proof.
+  split; [vm_compute; reflexivity|]. split; [vm_compute; reflexivity|]. split; [vm_compute; reflexivity|].
+  unfold compat. split; [|split; [|split; [|split]]].
+  - intros si H. vm_compute in H. inversion H. split; [reflexivity | right; reflexivity].
+  - intros sr H. vm_compute in H. inversion H. split; [reflexivity | right; reflexivity].
+  - intros j sj H A. destruct j as [|[|[|j]]]; vm_compute in H; inversion H; subst; try reflexivity; vm_compute in A; discriminate.
+  - intros j sj H A. destruct j as [|[|j]]; vm_compute in H; inversion H; subst; try reflexivity; vm_compute in A; discriminate.
+  - intros j sj H. destruct j as [|[|[|j]]]; vm_compute in H; inversion H; subst; discriminate.
+Qed.
 
 (* non-vacuity: a concrete history - bind by name, listen, connect by name from the peer, transfer, accept;
    a datagram sent and received; close frees address 16 and the name *)
